@@ -1,5 +1,6 @@
 // C01 (integer arithmetic) and C07 (bitwise / shift / rotate) kernels of one architecture.
 #include "xv_harness.hpp"
+#include "xv_twin.hpp"
 
 namespace xv
 {
@@ -292,6 +293,44 @@ namespace xv
         reg_u<op_rotr_s>("C07", "rotr.s", it);
         reg_b<op_rotl_v>("C07", "rotl.v", it);
         reg_b<op_rotr_v>("C07", "rotr.v", it);
+
+        // twin element types (xv_twin.hpp): the operator and named spellings of every operation, without the spelling variants
+        twin_types tt;
+        reg_b<op_add>("C01", "add.twin", tt);
+        reg_b<op_sub>("C01", "sub.twin", tt);
+        reg_b<op_mul>("C01", "mul.twin", tt);
+        reg_b<op_div>("C01", "div.twin", tt);
+        reg_b<op_mod>("C01", "mod.twin", tt);
+        reg_u<op_neg>("C01", "neg.twin", tt);
+        reg_u<op_abs>("C01", "abs.twin", tt);
+        reg_b<op_min>("C01", "min.twin", tt);
+        reg_b<op_max>("C01", "max.twin", tt);
+        reg_u<op_incr>("C01", "incr.twin", tt);
+        reg_u<op_decr>("C01", "decr.twin", tt);
+        reg_um<op_incr_if>("C01", "incr_if.twin", tt);
+        reg_um<op_decr_if>("C01", "decr_if.twin", tt);
+        reg_t<op_fma>("C01", "fma.twin", tt);
+        reg_t<op_fnms>("C01", "fnms.twin", tt);
+        reg_u<op_sign>("C01", "sign.twin", tt);
+        reg_b<op_sadd>("C01", "sadd.twin", tt);
+        reg_b<op_ssub>("C01", "ssub.twin", tt);
+        reg_b<op_avg>("C01", "avg.twin", tt);
+        reg_b<op_avgr>("C01", "avgr.twin", tt);
+        reg_b<op_mod_rs>("C01", "mod.rs.twin", tt);
+        reg_u<op_mul_scalar>("C01", "mul.scalar.twin", tt);
+        reg_b<op_and>("C07", "and.twin", tt);
+        reg_b<op_or>("C07", "or.twin", tt);
+        reg_b<op_xor>("C07", "xor.twin", tt);
+        reg_u<op_not>("C07", "not.twin", tt);
+        reg_b<op_andnot>("C07", "andnot.twin", tt);
+        reg_u<op_shl_s>("C07", "shl.s.twin", tt);
+        reg_u<op_shr_s>("C07", "shr.s.twin", tt);
+        reg_b<op_shl_v>("C07", "shl.v.twin", tt);
+        reg_b<op_shr_v>("C07", "shr.v.twin", tt);
+        reg_u<op_rotl_s>("C07", "rotl.s.twin", tt);
+        reg_u<op_rotr_s>("C07", "rotr.s.twin", tt);
+        reg_b<op_rotl_v>("C07", "rotl.v.twin", tt);
+        reg_b<op_rotr_v>("C07", "rotr.v.twin", tt);
     }
 }
 XV_MODULE("int")
